@@ -779,6 +779,28 @@ def run_c04(ck, ctx):
         err = L.ANSI.sub('', err.decode('utf-8', 'replace'))
         if 'panicked' in err or p.returncode not in (0, 1):
             ck.violation('crash', {'what': 'large input with early stop: panic / abnormal exit', 'args': args, 'exit': p.returncode, 'stderr': err[-400:]})
+    # ... and the same with a SLOW consumer: every payload is garbage (several findings per packet to format), so the reader runs
+    # far ahead of the validators and sits blocked on the full queue when the error cap stops the analysis (seeded C04-m4: a
+    # receiver of the reader queue kept alive by the main thread - the reader then sleeps in `send` for ever)
+    npk2 = 40000 if tier == 'quick' else 150000
+    one = lambda i: G.rdh_bytes(dict(G.RDH_DEFAULT, link=0, fee=0x1000, orbit=10 + i // 2, page=i % 2, stop=i % 2, size=64 + 80, off=64 + 80, pkt=i & 0xFF)) + b'\x3D' * 80
+    big2 = os.path.join(wd, 'big_garbage.raw')
+    with open(big2, 'wb') as fh:
+        for i in range(npk2): fh.write(one(i))
+    bound2 = 30.0 + npk2 * 144 / 1e6 * 5
+    for args in (['check', 'all', 'its', '-m', '-e', '20000'], ['check', 'all', 'its', '-m', '-e', '5000'], ['check', 'sanity', 'its', '-m', '-e', '20000']):
+        p = subprocess.Popen([L.BIN, big2] + args, stdout=subprocess.DEVNULL, stderr=subprocess.PIPE)
+        ck.case(('big_early_stop_slow_consumer', tuple(args))); ck.count('big_early_stop_runs')
+        try:
+            _, err = p.communicate(timeout=bound2)
+        except subprocess.TimeoutExpired:
+            p.kill(); p.communicate()
+            ck.violation('hang', {'what': 'a %d-packet input of garbage payloads whose analysis is stopped by the error cap while the reader is far ahead does not end within %.0f s' % (npk2, bound2),
+                                  'args': args, 'input': '%d packets on one link, each payload = 80 bytes 0x3D' % npk2})
+            continue
+        err = L.ANSI.sub('', err.decode('utf-8', 'replace'))
+        if 'panicked' in err or p.returncode not in (0, 1):
+            ck.violation('crash', {'what': 'large garbage input with error cap: panic / abnormal exit', 'args': args, 'exit': p.returncode, 'stderr': err[-400:]})
     shutil.rmtree(wd, ignore_errors=True)
     ck.sample(dict(args=jobs[5][1] + jobs[5][2], via=jobs[5][3], input_len=len(jobs[5][4])))
 
